@@ -403,3 +403,97 @@ Proof.
   pose proof (gen_run_inv run cfg log Hs o evs _ [] _ _ (gen_start_inv run log o) Hok Hrun) as (a & _ & _ & _ & Hh).
   apply Hh. left. exact Hph.
 Qed.
+
+(* ---------------------------------------------------------------- the restart offset is absolute *)
+(* reader.run: `offset = start` after the initialisation.  The FirstOffset / LastOffset
+   placeholder a generation starts with is resolved by its first initialised connection and
+   never again: from then on the restart offset is an absolute offset, so a connection lost
+   before the first message was delivered resumes at the resolved offset, not at the partition's
+   new first / last offset. *)
+Section RestartOffset.
+Variable run : Z -> Z -> list N -> Z -> bool -> option (list msg * err * Z).
+Variable cfg : gcfg.
+
+(* the broker answers absolute offsets, messages carry absolute offsets *)
+Definition ev_abs (g : gen) (ev : gev) : Prop :=
+  match ev with
+  | GInit first last _ _ => 0 <= first /\ 0 <= last
+  | GOffsets (Some (first, _)) => 0 <= first
+  | GFetch (FData hwm bytes remain late) =>
+    forall ms e off, run (g_conn g) hwm bytes remain late = Some (ms, e, off) -> Forall (fun m => 0 <= g_off m) ms
+  | _ => True
+  end.
+
+Definition resolved (o first last : Z) : Z :=
+  if o =? FirstOffset then first else if o =? LastOffset then last else if o <? first then first else o.
+
+Lemma resolved_abs o first last : 0 <= first -> 0 <= last -> 0 <= resolved o first last.
+Proof.
+  intros Hf Hl. unfold resolved, FirstOffset, LastOffset. destruct (o =? -2); [exact Hf|].
+  destruct (o =? -1); [exact Hl|]. destruct (o <? first) eqn:E; lia.
+Qed.
+
+(* the initialisation that succeeds leaves an absolute restart offset: the placeholder resolved *)
+Lemma init_resolves g first last first2 last2 g' outs :
+  gen_step run cfg g (GInit first last first2 last2) = Some (g', outs) ->
+  g_phase g = PInit -> g_phase g' = PRead -> 0 <= first -> 0 <= last ->
+  0 <= g_offset g' /\ g_offset g' = resolved (g_offset g) first last.
+Proof.
+  intros Hs Hp Hp' Hf Hl. unfold gen_step in Hs. rewrite Hp in Hs. fold (resolved (g_offset g) first last) in Hs.
+  pose proof (resolved_abs (g_offset g) first last Hf Hl) as Ho1.
+  destruct (resolved (g_offset g) first last =? FirstOffset) eqn:E1; [unfold FirstOffset in E1; lia|].
+  destruct ((resolved (g_offset g) first last <? first2) || (last2 <? resolved (g_offset g) first last)).
+  - destruct (c_oor_error cfg); injection Hs as <- _; cbn [g_phase] in Hp'; discriminate.
+  - injection Hs as <- _. cbn [g_offset]. split; [exact Ho1|reflexivity].
+Qed.
+
+(* once absolute, always absolute: no later step — a redial and its initialisation, an error
+   answer, OffsetOutOfRange handling, deliveries — brings a placeholder back; and the
+   initialisation of a redial does not move an absolute restart offset that the log still holds *)
+Lemma restart_offset_stays_absolute g ev g' outs :
+  gen_step run cfg g ev = Some (g', outs) -> ev_abs g ev -> 0 <= g_offset g -> 0 <= g_offset g'.
+Proof.
+  intros Hs Hev Ho. unfold gen_step in Hs.
+  destruct (g_phase g) eqn:Hp; destruct ev as [|first last first2 last2|r|r]; try (injection Hs as <- _; exact Ho).
+  - (* PInit, GInit *)
+    cbn [ev_abs] in Hev. destruct Hev as [Hf Hl]. fold (resolved (g_offset g) first last) in Hs.
+    pose proof (resolved_abs (g_offset g) first last Hf Hl) as Ho1.
+    destruct (resolved (g_offset g) first last =? FirstOffset); [injection Hs as <- _; exact Ho1|].
+    destruct ((resolved (g_offset g) first last <? first2) || (last2 <? resolved (g_offset g) first last)).
+    + destruct (c_oor_error cfg); injection Hs as <- _; exact Ho.
+    + injection Hs as <- _. exact Ho1.
+  - (* PRead, GFetch *)
+    destruct (read_once run g r) as [[[[outs0 e] o'] c']|] eqn:Er; [|discriminate].
+    assert (Ho' : 0 <= o').
+    { unfold read_once in Er. destruct r as [hwm bytes remain late|code| |].
+      - destruct (run (g_conn g) hwm bytes remain late) as [[[ms e0] off]|] eqn:Erun; [|discriminate].
+        injection Er as _ _ <- _. cbn [ev_abs] in Hev. specialize (Hev ms e0 off Erun).
+        destruct (rev ms) as [|m t] eqn:Erev; [exact Ho|].
+        assert (Hin : In m ms) by (apply in_rev; rewrite Erev; left; reflexivity).
+        pose proof (proj1 (Forall_forall _ _) Hev m Hin) as Hm. cbn beta in Hm. lia.
+      - injection Er as _ _ <- _. exact Ho.
+      - injection Er as _ _ <- _. exact Ho.
+      - injection Er as _ _ <- _. exact Ho. }
+    repeat match type of Hs with context[match ?x with _ => _ end] => destruct x end; injection Hs as <- _; exact Ho'.
+  - (* POffsets, GOffsets *)
+    destruct r as [[first last]|]; [|injection Hs as <- _; exact Ho].
+    cbn [ev_abs] in Hev. destruct (g_offset g <? first); injection Hs as <- _; cbn [g_offset]; [exact Hev|exact Ho].
+Qed.
+
+(* the initialisation of a redial does not move an absolute restart offset (unless the log
+   start has passed it): the placeholder is resolved at most once per position *)
+Lemma redial_keeps_resolved_offset g first last first2 last2 g' outs :
+  gen_step run cfg g (GInit first last first2 last2) = Some (g', outs) ->
+  g_phase g = PInit -> 0 <= g_offset g -> first <= g_offset g -> g_offset g' = g_offset g.
+Proof.
+  intros Hs Hp Hab Hge. unfold gen_step in Hs. rewrite Hp in Hs. fold (resolved (g_offset g) first last) in Hs.
+  assert (Hr : resolved (g_offset g) first last = g_offset g).
+  { unfold resolved, FirstOffset, LastOffset. replace (g_offset g =? -2) with false by lia.
+    replace (g_offset g =? -1) with false by lia. replace (g_offset g <? first) with false by lia. reflexivity. }
+  rewrite Hr in Hs. destruct (g_offset g =? FirstOffset); [injection Hs as <- _; reflexivity|].
+  destruct ((g_offset g <? first2) || (last2 <? g_offset g)).
+  - destruct (c_oor_error cfg); injection Hs as <- _; reflexivity.
+  - injection Hs as <- _. reflexivity.
+Qed.
+
+End RestartOffset.
